@@ -38,13 +38,14 @@ type Arena struct {
 	Shadow []dyn.Val
 	root   dyn.Sl
 	base   uintptr
+	salt   int
 }
 
 // NewArena allocates a parent with C channels and K frames (length = capacity)
 // and fills it with canaries.
 func NewArena(t *dyn.TypeOps, c, k, salt int) *Arena {
 	p := t.Alloc(signal.Allocator{Channels: c, Length: k, Capacity: k})
-	a := &Arena{T: t, P: p, C: c, K: k, root: p.RawAll(), base: p.RawBase()}
+	a := &Arena{T: t, P: p, C: c, K: k, root: p.RawAll(), base: p.RawBase(), salt: salt}
 	a.Shadow = make([]dyn.Val, c*k)
 	for i := range a.Shadow {
 		v := Canary(t.TypeInfo, i, salt)
@@ -65,7 +66,17 @@ type Win struct {
 // appending `extra` samples (only possible when the window has spare
 // capacity). The appended samples are canaries too.
 func (a *Arena) Window(s, e, extra, salt int) *Win {
-	b := a.P.Slice(s, e)
+	// the same window reached in different ways: directly, as a short window
+	// that is re-extended into its spare capacity, or through an outer window
+	var b dyn.Buf
+	switch (s + e + salt + a.salt) % 3 {
+	case 0:
+		b = a.P.Slice(s, e)
+	case 1:
+		b = a.P.Slice(s, s+(e-s)/2).Slice(0, e-s)
+	default:
+		b = a.P.Slice(s/2, a.K).Slice(s-s/2, e-s/2)
+	}
 	w := &Win{B: b, Off: a.C * s, A: a}
 	for i := 0; i < extra; i++ {
 		if b.Len() >= b.Cap() {
